@@ -72,10 +72,10 @@ fn hunt_lang(ignore_kf1: bool) -> ! {
 }
 
 /// Bounded search for a soundness failure (C01/C03/C04/C07), used only AFTER a proof obligation has failed: all sets of 1..=2 words of
-/// length <= 2 over {a, B, 1, ' ', '-'} x all 2^8 subsets of {digits, non-digits, words, non-words, spaces, non-spaces, ignore-case,
+/// length <= 2 over {a, B, 1, ' '} x all 2^8 subsets of {digits, non-digits, words, non-words, spaces, non-spaces, ignore-case,
 /// repetitions}; the expression must compile and match every test case in full.  Prints `failing input: FLAGS -- words` and exits 1.
 fn hunt_sound() -> ! {
-    let alphabet = ['a', 'B', '1', ' ', '-'];
+    let alphabet = ['a', 'B', '1', ' '];
     let mut words: Vec<String> = vec![];
     for a in alphabet { words.push(a.to_string()); }
     for a in alphabet { for b in alphabet { words.push(format!("{a}{b}")); } }
